@@ -2,4 +2,8 @@
 
 package wire
 
+import "net"
+
 func verifPoint(point string, subject any) {}
+
+func verifConn(conn net.Conn) net.Conn { return conn }
